@@ -160,6 +160,8 @@ def run(ctx: Ctx) -> None:
         ctx.count('inject:%s:%s' % (r['stage'], r['escaped']))
 
     directed(ctx)
+    matrix(ctx)
+    interactive(ctx)
 
     # ---- (b) fuzzing ----
     N = ctx.n(160, 4000) * (3 if ctx.broken else 1)
@@ -226,6 +228,13 @@ DIRECTED = [
     ('bad-call', 'def f(a: int) -> int:\n\treturn a.nope(1)\n'),
     ('self-outside-class', 'def f(self) -> None:\n\tpass\n'),
     ('return-outside-function', 'return 1\n'),
+    ('class-list-base', 'class G([T]):\n\tpass\n'),
+    ('deep-attribute-chain', 'x = a' + '.b' * 300 + '\n'),
+    ('none-subscript', 'v: None[int] = 1\n'),
+    ('function-attribute-type', 'x: len.y = 1\n'),
+    ('empty', ''),
+    ('blank', ' \n'),
+    ('comment-only', '# nothing\n'),
 ]
 VALID = 'def ok(a: int) -> int:\n\treturn a + 1\n'
 
@@ -264,9 +273,111 @@ def directed(ctx: Ctx) -> None:
                           dict(input=dict(source=src, then=VALID, path='memory-sequence'), impl_result=[list(first), list(second)]))
 
 
+def matrix(ctx: Ctx) -> None:
+    """symbol kind x position matrix of well-formed, ill-typed programs (harness/illtyped.py)"""
+    import tsession
+    import illtyped
+    pairs = [(c, sy) for c in illtyped.CTX for sy in illtyped.SYMS]
+    if ctx.tier == 'quick' and not ctx.broken:
+        pairs = ctx.rnd.sample(pairs, 260)
+    pairs = illtyped.PINNED + pairs
+    for c, sy in pairs:
+        src = illtyped.program(c, sy)
+        res = classify(lambda: tsession.Session({'mx_mod': src}).transpile('mx_mod'))
+        ctx.case(('matrix', c, sy), res[0] != 'ok')
+        ctx.count('matrix:%s' % res[0])
+        if res[0] in ('leak', 'timeout'):
+            ctx.violation('%s:%s@%s' % (res[0], res[1], res[2]), 'a non-application exception escapes the pipeline: %s raised in %s (%s in position %s)' % (res[1], res[2] or '?', sy, c),
+                          dict(input=dict(source=src, path='memory'), impl_result=list(res)))
+
+
+IT_VALID = [('z: int = 9', 'int z = 9;'), ('def ok(a: int) -> int:\n\treturn a + 1', 'return a + 1;'), ('class P:\n\tn: int = 3', 'class P')]
+IT_FAILING = ['a = (1', 'a: int = b', 'def f(:', 'x: len.y = 1', ')', '"', "'" * 3, 'v: None[int] = 1', 'class G([T]):\n\tpass', 'def f(a: int) -> int:\n\treturn a + missing', 'if True:\n        a = 1\n    b = 2', 'return 1']
+
+
+def interactive_session(seq):
+    """runs the real Interactive.run over one scripted session; returns (ending, unread key lines, printed text)"""
+    import contextlib
+    import io
+    import rogw.tranp.bin.io as tranp_io
+    from rogw.tranp.app.app import App
+    from rogw.tranp.bin.transpile import Args, Interactive, TranspileApp
+    from rogw.tranp.lang.locator import Locator
+    root = os.path.join(os.getcwd(), 'c07it')
+    os.makedirs(os.path.join(root, 'src'), exist_ok=True)
+    with open(os.path.join(root, 'src', 'stub.py'), 'w') as f:
+        f.write('STUB: int = 0\n')
+    config = os.path.join(root, 'config.yml')
+    with open(config, 'w') as f:
+        f.write('\n'.join(['grammar: %s/data/grammar.lark' % REPO, 'template_dirs:', '  - %s/data/cpp/template' % REPO, 'trans_mapping: %s/data/i18n.yml' % REPO, 'input_globs:', '  - src/**/*.py',
+                           'output_dirs:', '  - ./out/', 'output_language: cpp:h', 'exclude_patterns: []', 'env:', '  transpiler:', '    include_dirs: []', '  view:',
+                           '    immutable_param_types: [std::string, std::vector, std::map, std::function]', '']))
+    keys = []
+    for prog in seq:
+        if prog:
+            keys.extend(prog.split('\n'))
+        keys.append('')
+    keys.append('exit')
+
+    def scripted(prompt: str = '') -> str:
+        return keys.pop(0) if keys else 'exit'
+    here, orig = os.getcwd(), tranp_io.readline
+    os.chdir(root)
+    tranp_io.readline = scripted
+    out = io.StringIO()
+    ending = 'returned'
+
+    def go():
+        app = App(TranspileApp.definitions(Args(['-c', config, '-it'])))
+        with contextlib.redirect_stdout(out):
+            Interactive(app.resolve(Locator)).run()
+    try:
+        limited(60, go)
+    except TimeLimit:
+        ending = 'timeout'
+    except BaseException as e:
+        ending = 'escaped:' + type(e).__name__
+    finally:
+        tranp_io.readline = orig
+        os.chdir(here)
+    return ending, len(keys), out.getvalue()
+
+
+def interactive(ctx: Ctx) -> None:
+    """the real interactive loop (bin/transpile.py Interactive.run) with a scripted keyboard: only bin.io.readline is
+    replaced. Each session enters programs (a blank line ends one) and `exit`; the loop must consume every line and print
+    the C++ text of each valid program, whatever was entered before it."""
+    rnd = ctx.rnd
+    v = [p for p, _ in IT_VALID]
+    sessions = [[v[0], '', v[1]], ['', v[0]], ['', '', v[2]], [v[0], 'exit_like = 1', v[1]]] + [[f, v[i % 3]] for i, f in enumerate(IT_FAILING)]
+    for _ in range(ctx.n(6, 200)):
+        seq = []
+        for _ in range(rnd.randint(1, 4)):
+            k = rnd.random()
+            seq.append('' if k < .15 else rnd.choice(IT_FAILING) if k < .6 else rnd.choice(v))
+        seq.append(rnd.choice(v))
+        sessions.append(seq)
+    for seq in sessions:
+        ending, unread, printed = interactive_session(seq)
+        missing = [m for prog in seq for p, m in IT_VALID if prog == p and m not in printed]
+        ctx.evaluations += 1
+        ctx.case(('interactive', tuple(seq)), any(p not in v for p in seq))
+        ctx.count('interactive:%s' % ending)
+        if ending != 'returned' or unread or missing:
+            what = ending if ending != 'returned' else ('unread-input' if unread else 'valid-program-not-transpiled')
+            ctx.violation('interactive:%s' % what, 'the interactive loop does not survive a session (%s): %d key lines unread, %d valid programs without output' % (what, unread, len(missing)),
+                          dict(input=dict(source='\n<blank line>\n'.join(seq), session=seq, path='interactive'), impl_result=[ending, printed[-600:]]))
+
+
 def replay(ctx: Ctx, data: dict) -> int:
     shim()
     import tsession
+    if data['input'].get('path') == 'interactive':
+        ending, unread, printed = interactive_session(data['input']['session'])
+        print('session:', data['input']['session'], '\nending:', ending, 'unread key lines:', unread)
+        bad = ending != 'returned' or unread > 0
+        print('REPRODUCED' if bad else 'not reproduced')
+        return 1 if bad else 0
     src = data['input']['source']
     res = classify(lambda: tsession.Session({'fz_mod': src}).transpile('fz_mod'))
     print(src)
